@@ -154,10 +154,21 @@ def build_tk(spec):
     return c
 
 
-def gen_tk_spec(rng, max_q=3, max_b=2, max_gates=7, kinds=None):
-    nq, nb = rng.randint(1, max_q), rng.randint(0, max_b)
+def _pair(rng, nq):
+    """two distinct units; half of the time as far apart as possible (either order)"""
+    if rng.random() < 0.5:
+        a, b = 0, nq - 1
+        if nq > 2 and rng.random() < 0.5:
+            a, b = rng.choice([(0, nq - 2), (1, nq - 1)])
+        return (a, b) if rng.random() < 0.5 else (b, a)
+    return tuple(rng.sample(range(nq), 2))
+
+
+def gen_tk_spec(rng, max_q=5, max_b=2, max_gates=7, kinds=None):
+    nq = rng.choice([1, 2, 2, 3, 3, 4, 4, 5][:max_q + 3])
+    nb = rng.randint(0, max_b if nq <= 3 else 1)      # mixed evaluation costs 4**nq * 2**nb
     kinds = kinds or ["H", "S", "T", "X", "Y", "Z", "Rx", "Rz", "CX", "CZ", "CRz", "Measure", "Measure"]
-    gates = []
+    gates = [[rng.choice(["X", "H", "X"]), q] for q in range(nq) if rng.random() < 0.6]   # break symmetry
     for _ in range(rng.randint(1, max_gates)):
         k = rng.choice(kinds)
         if k in ("H", "S", "T", "X", "Y", "Z"):
@@ -165,10 +176,10 @@ def gen_tk_spec(rng, max_q=3, max_b=2, max_gates=7, kinds=None):
         elif k in ("Rx", "Rz"):
             gates.append([k, rng.choice([0.25, 0.5, 0.3, -0.7, 1.1, 2.0, -1.25]), rng.randrange(nq)])
         elif k in ("CX", "CZ", "SWAP") and nq >= 2:
-            a, b = rng.sample(range(nq), 2)
+            a, b = _pair(rng, nq)
             gates.append([k, a, b])
         elif k == "CRz" and nq >= 2:
-            a, b = rng.sample(range(nq), 2)
+            a, b = _pair(rng, nq)
             gates.append([k, rng.choice([0.25, 0.5, 0.3, -0.7, 1.5]), a, b])
         elif k == "Measure" and nb:
             gates.append([k, rng.randrange(nq), rng.randrange(nb)])
